@@ -3,6 +3,7 @@ package loading
 import (
 	"fmt"
 	"os"
+	"path"
 	"strings"
 	"time"
 
@@ -158,6 +159,12 @@ func resolveInputs(
 			// Nothing to resolve - no special glob characters
 			resolvedInputs = append(resolvedInputs, input)
 			continue
+		}
+
+		// A pattern that reaches out of the package would silently match nothing (the glob is
+		// evaluated inside the package directory): reject it like a literal input that escapes
+		if cleanedPattern := path.Clean(input); path.IsAbs(input) || cleanedPattern == ".." || strings.HasPrefix(cleanedPattern, "../") {
+			return nil, fmt.Errorf("input pattern %s points outside the package. Use dependencies to declare dependencies between targets", input)
 		}
 
 		matches, err := doublestar.Glob(fsys, input, doublestar.WithFilesOnly())
